@@ -1004,8 +1004,8 @@ def c01(run):
                 algos = list(ALGOS) if (not quick or size in (0, bs, 2 * bs + 1)) else [rng.choice(list(ALGOS))]
                 for a in algos:
                     cases.append((kind, size, a, bs))
-        want_chunks = dict(zip([(bs, size) for (_, size, _, bs) in cases],
-                               layerA(["chunks %d %d" % (bs, size) for (_, size, _, bs) in cases])))
+        small = sorted({(bs, size) for (_, size, _, bs) in cases if size <= 200000})      # the model's lists are unary: 1 MiB is checked by the oracle only
+        want_chunks = dict(zip(small, layerA(["chunks %d %d" % k_ for k_ in small])))
         for kind, size, a, bs in cases:
             n += 1
             hs = stores[a]
@@ -1045,7 +1045,7 @@ def c01(run):
                 run.violation({"kind": "store-raised", "data": kind, "exn": out}, "store_object(pid, <%s of %d bytes>) raised %s" % (kind, size, out[4:]), replay)
                 continue
             # correspondence: the sequence of non-empty reads is the model's chunking of the content
-            if rec is not None and isinstance(rec, RecordingReader):
+            if rec is not None and isinstance(rec, RecordingReader) and (bs, size) in want_chunks:
                 got = [x for x in rec.reads if x > 0]
                 want = [int(x) for x in want_chunks[(bs, size)].split(",")] if want_chunks[(bs, size)] != "-" else []
                 file_backed = kind.startswith("file")
